@@ -9356,7 +9356,7 @@ SoPlexBase<R>::SoPlexBase()
 
 #ifdef SOPLEX_WITH_MPFR
    // set initial precision
-   BP::default_precision(_initialPrecision);
+   BP::thread_default_precision(_initialPrecision);
 
    _boostedSolver.setOutstream(spxout);
    _boostedScalerUniequi.setOutstream(spxout);
